@@ -108,7 +108,7 @@ class DocGen:
         self.s_bits = st.integers(0, 255)
         self.s_len = st.integers(0, 5)
         self.s_bool = st.booleans()
-        self.s_kind = st.sampled_from(kinds or (['single'] * 4 + ['batch'] * 5 + ['value', 'deep', 'huge', 'mangled', 'mangled', 'raw']))
+        self.s_kind = st.sampled_from(kinds or (['single'] * 4 + ['batch'] * 5 + ['value', 'deep', 'huge', 'mangled', 'mangled', 'raw', 'long']))
         self.s_indent = st.sampled_from([0, 0, 1])
         # JSON whitespace is space, tab, LF, CR only; the other blanks python's str.strip() / str.isspace() know are NOT
         _json_ws = st.sampled_from(['', '', '', ' ', '\n\t ', '\r\n'])
@@ -123,6 +123,7 @@ class DocGen:
         self.s_hugedigits = st.sampled_from([4300, 4301, 10000, 'overflow'])
         self.s_nbatch0 = st.integers(0, max_batch)
         self.s_nbatch1 = st.integers(1, max_batch)
+        self.s_nlong = st.sampled_from([10, 11, 12, 13, 17, 33])   # 'long' batches: positions with two digits
         self.s_dup = st.integers(0, 3)
         self.s_pos = st.integers(0, max_batch - 1)
         self.s_pair = st.sampled_from([(1, 1), ('1', '1'), (1, '1'), (0, 0), ('', ''), (0, ''), (-1, -1)])
@@ -236,10 +237,10 @@ class DocGen:
         if kind in ('single', 'huge', 'mangled') and draw(self.s_bool):
             ts['doc'] = self._element(draw, ts['huge'] if huge else False)
         else:
-            n = draw(self.s_nbatch0 if kind == 'batch' else self.s_nbatch1)
+            n = draw(self.s_nlong) if kind == 'long' else draw(self.s_nbatch0 if kind == 'batch' else self.s_nbatch1)
             # half of the batches consist of well-formed request objects with distinct ids only: one malformed element or a repeated
             # id has the whole batch refused, and then nothing of what the other elements ask for is exercised
-            clean = draw(self.s_bool)
+            clean = True if kind == 'long' else draw(self.s_bool)
             els = [self._element(draw, (ts['huge'] if huge else False) if i == 0 else False, clean) for i in range(n)]
             if clean:
                 seen: List[Any] = []
